@@ -69,14 +69,14 @@ Definition step (s : pstate) (o : op) : pstate :=
       let s' := write_packed s (loose_news s which) in
       {| pk := pk s'; pl := pl s'; ls := prune (ls s') which |}
   | OGitPack which =>
-      (* git peels what it packs now; an entry that is in the file already keeps what the file says about it
-         (the header makes git trust it) *)
+      (* git peels what it packs now; an entry that is in the file already with the value it has now -- whether or
+         not a loose file repeats it -- keeps what the file says about it (the header makes git trust it) *)
       let pk' := apply_news (pk s) (loose_news s which) in
       {| pk := pk';
          pl := fun r => match pk' r with
-                        | Some v => if existsb (Nat.eqb r) which && (match ls s r with Some _ => true | None => false end)
-                                    then (if peel v =? v then None else Some (peel v))
-                                    else pl s r
+                        | Some v => if match pk s r with Some w => w =? v | None => false end
+                                    then pl s r
+                                    else (if peel v =? v then None else Some (peel v))
                         | None => None
                         end;
          ls := prune (ls s) which |}
